@@ -50,4 +50,14 @@ PROPS = {
                         'sha1: a RandomRounds request is accepted iff the drawn value is >= MinRounds (C15 bounds the draw)'],
         'explanation': 'Theorems for all arguments: every Key rejects with the typed error of the first failing documented guard carrying the offending value, independently of the derivation (prompt), and accepts exactly the domain; alphabets exact for all 256 bytes. Tie: Key outcome (accept / typed error + value) vs the model with generated limits and vs the guard table over exported constants, on exhaustive salt lengths, every salt position x 256 bytes, cost bounds, password limits, option pools.',
     },
+    'C20': {
+        'property_files': ['Properties/C20.v'],
+        'targets': ['Properties/C20.vo', 'Codec/Codec.vo', 'Codec/Class.vo', 'Codec/C20Test.vo'],
+        'trusted': ['modelled: the same codec model as C10 (typeinfo, marshal, unmarshal, parser)',
+                    'the relation respell (Codec/Respell.v) formalises the four tolerated respellings on the value texts of the two parse trees'],
+        'assumptions': ['layouts outside the unambiguous class and plain integer fields with a length: tag are outside the statement (DESIGN.md 5.2)'],
+        'explanation': 'C20_full_statement (accepted => canonical re-marshalling exists and the accepted string is a respelling of it) is stated for the unambiguous class and re-evaluated by the model on every accepted string of the run; proved so far: the parse tree is lossless up to one trailing delimiter, and the exact canonical spelling of every accepted integer text (leading zeros, case, sign). Tie: every edit-distance-1 string and structural splice of accepted marshallings vs the model (values or projected error); property oracle on the implementation (value texts equal up to respellings).',
+        'level_text': 'proof (partial): the full statement is visible and model-tested on every run; the lossless-tree and integer-spelling parts are proved; the general inductive proof over the field loop is not finished',
+        'corr_timeout': 3000,
+    },
 }
